@@ -40,6 +40,14 @@ pub trait DeleteListener {
     fn start_killing(&mut self) {}
     /// `string` deleted at `idx` index
     fn delete(&mut self, idx: usize, string: &str, dir: Direction);
+    /// `before` + `after` deleted at `idx` index, the cursor stood between the two parts (whole
+    /// line(s) / buffer deletion)
+    fn delete_around(&mut self, idx: usize, before: &str, after: &str) {
+        let mut string = String::with_capacity(before.len() + after.len());
+        string.push_str(before);
+        string.push_str(after);
+        self.delete(idx, &string, Direction::Forward);
+    }
     /// used to make the distinction between simple character(s) deletion and
     /// word(s)/line(s) deletion
     fn stop_killing(&mut self) {}
@@ -959,6 +967,22 @@ impl LineBuffer {
         self.buf.drain(range)
     }
 
+    /// Remove `range`, in which the cursor stood at `cursor` before the command moved it to
+    /// `range.start`.
+    fn drain_around<D: DeleteListener>(&mut self, range: Range<usize>, cursor: usize, dl: &mut D) {
+        if cursor <= range.start {
+            self.drain(range, Direction::Forward, dl);
+        } else {
+            let cursor = cursor.min(range.end);
+            dl.delete_around(
+                range.start,
+                &self.buf[range.start..cursor],
+                &self.buf[cursor..range.end],
+            );
+            self.buf.drain(range);
+        }
+    }
+
     /// Return the content between current cursor position and `mvt` position.
     /// Return `None` when the buffer is empty or when the movement fails.
     #[must_use]
@@ -1092,8 +1116,16 @@ impl LineBuffer {
                 self.kill_line(dl)
             }
             Movement::WholeLine => {
+                let cursor = self.pos;
                 self.move_home();
-                self.kill_line(dl)
+                let start = self.pos;
+                let end = self.end_of_line();
+                if start < end {
+                    self.drain_around(start..end, cursor, dl);
+                    true
+                } else {
+                    self.kill_line(dl)
+                }
             }
             Movement::BeginningOfLine => {
                 // Kill backward from point to the beginning of the line.
@@ -1113,7 +1145,9 @@ impl LineBuffer {
                     // the current line is the last one: remove the preceding line break instead
                     let last = self.buf[self.pos..].find('\n').is_none();
                     let start = if last && start > 0 { start - 1 } else { start };
-                    self.delete_range(start..end, dl);
+                    let cursor = self.pos;
+                    self.set_pos(start);
+                    self.drain_around(start..end, cursor, dl);
                     true
                 } else {
                     false
@@ -1124,7 +1158,9 @@ impl LineBuffer {
                     // the range reaches the last line: remove the preceding line break instead
                     let last = self.buf[start..end].matches('\n').count() <= usize::from(n);
                     let start = if last && start > 0 { start - 1 } else { start };
-                    self.delete_range(start..end, dl);
+                    let cursor = self.pos;
+                    self.set_pos(start);
+                    self.drain_around(start..end, cursor, dl);
                     true
                 } else {
                     false
@@ -1142,8 +1178,15 @@ impl LineBuffer {
                 self.discard_buffer(dl)
             }
             Movement::WholeBuffer => {
+                let cursor = self.pos;
                 self.move_buffer_start();
-                self.kill_buffer(dl)
+                if self.buf.is_empty() {
+                    false
+                } else {
+                    let end = self.buf.len();
+                    self.drain_around(0..end, cursor, dl);
+                    true
+                }
             }
         };
         if notify {
